@@ -16,7 +16,7 @@ import time
 
 VERIF = os.path.dirname(os.path.dirname(os.path.abspath(__file__)))
 REPO = os.environ.get("VERIF_REPO", "/repo")
-CACHE = os.path.join(VERIF, ".cache")
+CACHE = os.environ.get("VERIF_CACHE") or os.path.join(VERIF, ".cache")
 DRIVER = os.path.join(VERIF, "tools/rotofacts/target/release/rotofacts")
 
 
